@@ -351,7 +351,7 @@ pub fn run(ctx: &Ctx) -> i32 {
     run_cases(ctx, &mut rep, "loops", ctx.cases(4000, 200_000), case);
     // the real daemon (real KalmanFilter, OverlayClock and the clock plumbing of statime-linux/src/main.rs) locked to
     // a grandmaster played by the harness with kernel transmit/receive timestamps
-    std::env::set_var("VERIF_C02_E2E_SECS", if ctx.quick() { "30" } else { "60" });
+    std::env::set_var("VERIF_C02_E2E_SECS", if ctx.quick() { "40" } else { "75" });
     let workers = (ctx.threads as u64 / 2).clamp(2, 8);
     let sum = crate::daemon::run_part(ctx, &mut rep, ctx.cases(workers, 6 * workers), workers);
     if let Some(why) = &sum.skipped {
@@ -361,7 +361,7 @@ pub fn run(ctx: &Ctx) -> i32 {
         Finish {
             ctx,
             level: "exploration",
-            rule: "closed loop: a synthetic grandmaster (ideal clock = true time; one-step or two-step, Follow_Up optionally before its Sync) and a real slave port with the real KalmanFilter (default configuration) steering a simulated clock; initial offset in [-10 s, 10 s] (log-uniform magnitude, both signs, exact 0), oscillator error within +-150 ppm, symmetric one-way delay 1..400 us, uniform per-message jitter up to J in [0, 20 us], sync and delay-request log intervals -3..1, transmit timestamps reported promptly / only after the Delay_Resp / mixed; in a third of the cases the grandmaster only starts 5-20 s after the port, which has then become master through its announce receipt timeout (LISTENING -> MASTER -> SLAVE; all limits count from the grandmaster's start); all of the slave's timestamps are readings of the steered clock. Oracle: |true offset| <= 0.5 us + 3 J from some time <= 120 s + 1000 x max(sync interval, delay-request interval) until the horizon (+120 s), no clock step after that time, every frequency command finite and within +-400 ppm. Part daemon: the real statime daemon (two-port boundary clock in a private network namespace, virtual overlay clock) slaved for 30 s (thorough 60 s) to a grandmaster played by the harness whose clock differs from the system clock by a generated offset (0 .. +-5 s) and drift (+-100 ppm), two-step Sync with kernel transmit timestamps, Delay_Resp with kernel receive timestamps; the daemon's other port is master and stamps its own Sync/Follow_Up with the steered clock, which gives the true offset at every Sync; over the last quarter of the run the median |offset| must be <= 1 ms and the 90th percentile <= 3 ms (thorough: 100 us / 400 us; calibration: 1-3 us after 18 s). Non-trivial = |offset| > 1 ms or |oscillator error| > 10 ppm or J > 1 us; distinct by quantised parameter tuple.",
+            rule: "closed loop: a synthetic grandmaster (ideal clock = true time; one-step or two-step, Follow_Up optionally before its Sync) and a real slave port with the real KalmanFilter (default configuration) steering a simulated clock; initial offset in [-10 s, 10 s] (log-uniform magnitude, both signs, exact 0), oscillator error within +-150 ppm, symmetric one-way delay 1..400 us, uniform per-message jitter up to J in [0, 20 us], sync and delay-request log intervals -3..1, transmit timestamps reported promptly / only after the Delay_Resp / mixed; in a third of the cases the grandmaster only starts 5-20 s after the port, which has then become master through its announce receipt timeout (LISTENING -> MASTER -> SLAVE; all limits count from the grandmaster's start); all of the slave's timestamps are readings of the steered clock. Oracle: |true offset| <= 0.5 us + 3 J from some time <= 120 s + 1000 x max(sync interval, delay-request interval) until the horizon (+120 s), no clock step after that time, every frequency command finite and within +-400 ppm. Part daemon: the real statime daemon (two-port boundary clock in a private network namespace, virtual overlay clock) slaved for 40 s (thorough 75 s) to a grandmaster played by the harness whose clock differs from the system clock by a generated offset (0 .. +-5 s) and drift (+-100 ppm), two-step Sync with kernel transmit timestamps, Delay_Resp with kernel receive timestamps; the daemon's other port is master and stamps its own Sync/Follow_Up with the steered clock, which gives the true offset at every Sync; over the last quarter of the run the median |offset| must be <= 200 us and the 90th percentile <= 1 ms (thorough: 100 us / 400 us; calibration: 1-3 us after 18 s, single outliers <= 36 us). Non-trivial = |offset| > 1 ms or |oscillator error| > 10 ppm or J > 1 us; distinct by quantised parameter tuple.",
             assumptions: vec!["tolerances (0.5 us + 3 J, 120 s + 1000 x the slower message interval) were calibrated once on the unchanged tree with head-room and are a stated tolerance, not tuned per run".into(), "no wall clock anywhere: a run is a pure function of its parameters".into()],
             min_nontrivial: 50,
         },
@@ -372,7 +372,7 @@ pub fn run(ctx: &Ctx) -> i32 {
 pub fn replay(ctx: &Ctx, path: &str) -> i32 {
     let part = std::fs::read_to_string(path).ok().and_then(|s| serde_json::from_str::<serde_json::Value>(&s).ok()).and_then(|v| v["part"].as_str().map(|x| x.to_string()));
     if part.as_deref() == Some("daemon") {
-        std::env::set_var("VERIF_C02_E2E_SECS", if ctx.quick() { "30" } else { "60" });
+        std::env::set_var("VERIF_C02_E2E_SECS", if ctx.quick() { "40" } else { "75" });
         return crate::daemon::replay_part(ctx, path, 2);
     }
     replay_file(ctx, path, case)
